@@ -326,18 +326,24 @@ class StreamResult:
         self.bounds = ""
 
 
-def run_stream(name, mode, cases, nontrivial, hook=False, exhaustive=False, bounds="", hist_key=None):
+def run_stream(name, mode, cases, nontrivial, hook=False, exhaustive=False, bounds="", hist_key=None,
+               oracles=None, feed_impl=False):
     """cases: list of case lines.  nontrivial(case, obs)->bool."""
     sr = StreamResult(name, mode)
     sr.exhaustive = exhaustive
     sr.bounds = bounds
     hbin = H_BIN_HOOK if hook else H_BIN
     t0 = time.time()
-    with ThreadPoolExecutor(max_workers=2) as ex:
-        fi = ex.submit(run_lines, hbin, mode, cases)
-        fm = ex.submit(run_lines, DRIVER, mode, cases)
-        impl = fi.result()
-        model = fm.result()
+    if feed_impl:
+        # the model run is given the implementation's observation (sort oracle answers)
+        impl = run_lines(hbin, mode, cases)
+        model = run_lines(DRIVER, mode, [c + "\t" + a for c, a in zip(cases, impl)])
+    else:
+        with ThreadPoolExecutor(max_workers=2) as ex:
+            fi = ex.submit(run_lines, hbin, mode, cases)
+            fm = ex.submit(run_lines, DRIVER, mode, cases)
+            impl = fi.result()
+            model = fm.result()
     sr.wall = time.time() - t0
     sr.n = len(cases)
     seen = set()
@@ -350,6 +356,8 @@ def run_stream(name, mode, cases, nontrivial, hook=False, exhaustive=False, boun
         if a != bs:
             sr.disagree.append((c, a, b))
         fails = OK_FAIL.findall(a)
+        if oracles is not None:
+            fails = [f for f in fails if f in oracles]
         if fails:
             sr.oracle_fail.append((c, a, b, classes, fails))
         if c not in seen:
@@ -369,9 +377,12 @@ def load_known():
     return json.load(open(p)).get("findings", [])
 
 
+FEED_IMPL_MODES = {"adapt"}
+
+
 def run_one(mode, case, hook=False):
     a = run_lines(H_BIN_HOOK if hook else H_BIN, mode, [case])[0]
-    b = run_lines(DRIVER, mode, [case])[0]
+    b = run_lines(DRIVER, mode, [case + "\t" + a if mode in FEED_IMPL_MODES else case])[0]
     return a, b
 
 
